@@ -208,6 +208,21 @@ var oracleC18 = oracle{post: func(c *checker) {
 							q.TxID[3] ^= 1
 							return true
 						}},
+						// the hash of a different accepted header at the same height (sibling / best-chain
+						// header): the path recomputes this block's root, not that one's
+						{"hash-of-another-known-header", func(q *merkle_proof.MerkleProof) bool {
+							if q.BlockHeader != nil {
+								return false
+							}
+							for _, m := range w.Tree.Sorted() {
+								if m.Height == n.Height && m != n {
+									h := bitcoin.Hash32(m.Hash)
+									q.BlockHash = &h
+									return true
+								}
+							}
+							return false
+						}},
 						{"no-target", func(q *merkle_proof.MerkleProof) bool {
 							q.BlockHeader, q.BlockHash = nil, nil
 							return true
@@ -277,6 +292,23 @@ var oracleC18 = oracle{post: func(c *checker) {
 				height, best, err := w.Repo.VerifyMerkleProof(w.Ctx, q)
 				c.n++
 				c.count("proofs_removed_header", 1)
+				if !withHeader {
+					// the path of the block that now sits on the best chain at the same height, presented
+					// under the removed block's hash: proves nothing about the removed block
+					if other := t.AncestorAt(hdr.Get(l).Height); other != nil && other.Label != "G" && other.Hash != hdr.RH(u.Hash) {
+						x := copyProof(modelProof(hdr.Get(other.Label).TxIDs, 0))
+						h := u.Hash
+						x.BlockHash = &h
+						_, _, xerr := w.Repo.VerifyMerkleProof(w.Ctx, x)
+						c.n++
+						c.count("proofs_cross_block", 1)
+						if xerr == nil {
+							c.fail("proof-of-another-block-accepted", "removed-header-hash", fmt.Sprintf(
+								"the valid path of tx 0 of %s, presented under the hash of %s (removed as invalid, same height), verified", other.Label, l))
+							return nil
+						}
+					}
+				}
 				if err == nil && best {
 					c.fail("proof-for-removed-header-in-best-chain", fmt.Sprintf("with-header-%t", withHeader),
 						fmt.Sprintf("proof for tx 0 of %s, removed as invalid (or built on an invalid header), verified as (%d, on the best chain)", l, height))
